@@ -616,17 +616,26 @@ mod blocking {
                     let mut note = String::new();
                     match generated::proxy_signals_blocking(&client, k, path, name) {
                         Err(e) => note = format!("subscribe failed: {e}"),
-                        Ok(mut it) => {
+                        Ok(it) => {
+                            let mut it = it;
                             if let Err(e) = zbus::block_on(generated::emit_signal(&os, k, path, name, &args)) {
                                 note = format!("emit failed: {e}");
                             } else {
-                                // exactly one signal was emitted; a second `next` would block forever, so
-                                // surplus deliveries are looked for by the async run only
-                                if let Some(x) = it.next() {
-                                    items.push(match x {
+                                // Exactly one signal was emitted.  `next` blocks until one arrives, so it runs
+                                // on a helper thread and a lost signal shows up as "no item within 20 s" (the
+                                // in-process delivery normally takes microseconds); surplus deliveries are
+                                // looked for by the async run only.
+                                let (tx, rx) = std::sync::mpsc::channel();
+                                std::thread::spawn(move || {
+                                    let _ = tx.send(it.next());
+                                });
+                                match rx.recv_timeout(std::time::Duration::from_secs(20)) {
+                                    Ok(Some(x)) => items.push(match x {
                                         Ok(a) => json!({"ok": true, "args": a, "msg": ""}),
                                         Err(e) => json!({"ok": false, "args": [], "msg": e}),
-                                    });
+                                    }),
+                                    Ok(None) => {}
+                                    Err(_) => note = "no signal within 20 s".into(),
                                 }
                             }
                         }
